@@ -161,6 +161,12 @@ pub fn respell(v: &Value, mode: u64) -> String {
     out
 }
 
+/// The forged array-element disclosure that C03 / C10 append to presentations; the generator
+/// sometimes places its DIGEST as a plain string value in the claims (an audit log quoting it).
+pub fn evil_element_disclosure() -> String {
+    b64e(json!(["salt", "EVIL-ELEMENT"]).to_string().as_bytes())
+}
+
 /// A validly signed token of the ES256 test issuer with claims no generated credential has.
 pub fn foreign_token() -> &'static str {
     static T: std::sync::OnceLock<String> = std::sync::OnceLock::new();
